@@ -47,6 +47,42 @@ AntidiagSet(i) == {s \in Sq : AntidiagIx(s) = i}
 LightSet == {s \in Sq : IsLight(s)}
 DarkSet == {s \in Sq : IsDark(s)}
 
+\* RawBoard::pretty(style): 8 rank lines "<rank><frame><8 cells>\n", a frame line, the file line
+PrettyText(pos, utf8) ==
+  LET vert == IF utf8 THEN 9474 ELSE 124          \* "│" / "|"
+      horz == IF utf8 THEN 9472 ELSE 45           \* "─" / "-"
+      angle == IF utf8 THEN 9532 ELSE 43          \* "┼" / "+"
+      ind == IF pos.side = White THEN (IF utf8 THEN 9675 ELSE 87) ELSE (IF utf8 THEN 9679 ELSE 66)   \* ○ W / ● B
+      cellCh(c) == IF utf8 THEN CellUtf8Ch(c) ELSE CellAsciiCh(c)
+      rankLine(r) == <<RankCh(r), vert>> \o [f \in 1..8 |-> cellCh(pos.cells[MkSq(f - 1, r)])] \o <<10>>
+      RECURSIVE Ranks(_)
+      Ranks(r) == IF r > 7 THEN <<>> ELSE rankLine(r) \o Ranks(r + 1)
+  IN Ranks(0) \o <<horz, angle>> \o [i \in 1..8 |-> horz] \o <<10>>
+     \o <<ind, vert>> \o [f \in 1..8 |-> FileCh(f - 1)] \o <<10>>
+
+\* Display of Outcome / GameStatus (chess_base/src/types.rs), as code points
+DrawText(r) ==
+  CASE r = "stalemate" -> <<115, 116, 97, 108, 101, 109, 97, 116, 101>>   \* stalemate
+    [] r = "insufficient" -> <<105, 110, 115, 117, 102, 102, 105, 99, 105, 101, 110, 116, 32, 109, 97, 116, 101, 114, 105, 97, 108>>   \* insufficient material
+    [] r = "moves75" -> <<55, 53, 32, 109, 111, 118, 101, 32, 114, 117, 108, 101>>   \* 75 move rule
+    [] r = "repeat5" -> <<102, 105, 118, 101, 102, 111, 108, 100, 32, 114, 101, 112, 101, 116, 105, 116, 105, 111, 110>>   \* fivefold repetition
+    [] r = "moves50" -> <<53, 48, 32, 109, 111, 118, 101, 32, 114, 117, 108, 101>>   \* 50 move rule
+    [] r = "repeat3" -> <<116, 104, 114, 101, 101, 102, 111, 108, 100, 32, 114, 101, 112, 101, 116, 105, 116, 105, 111, 110>>   \* threefold repetition
+    [] r = "agreement" -> <<100, 114, 97, 119, 32, 98, 121, 32, 97, 103, 114, 101, 101, 109, 101, 110, 116>>   \* draw by agreement
+    [] r = "unknown" -> <<100, 114, 97, 119, 32, 98, 121, 32, 117, 110, 107, 110, 111, 119, 110, 32, 114, 101, 97, 115, 111, 110>>   \* draw by unknown reason
+LongColor(c) == IF c = White THEN <<119, 104, 105, 116, 101>> ELSE <<98, 108, 97, 99, 107>>
+WinText(c, r) ==
+  CASE r = "checkmate" -> LongColor(c) \o <<32, 99, 104, 101, 99, 107, 109, 97, 116, 101, 115>>
+    [] r = "timeforfeit" -> LongColor(Other(c)) \o <<32, 102, 111, 114, 102, 101, 105, 116, 115, 32, 111, 110, 32, 116, 105, 109, 101>>
+    [] r = "invalidmove" -> LongColor(Other(c)) \o <<32, 109, 97, 100, 101, 32, 97, 110, 32, 105, 110, 118, 97, 108, 105, 100, 32, 109, 111, 118, 101>>
+    [] r = "engineerror" -> LongColor(Other(c)) \o <<32, 105, 115, 32, 97, 32, 98, 117, 103, 103, 121, 32, 99, 104, 101, 115, 115, 32, 101, 110, 103, 105, 110, 101>>
+    [] r = "resign" -> LongColor(Other(c)) \o <<32, 114, 101, 115, 105, 103, 110, 115>>
+    [] r = "abandon" -> LongColor(Other(c)) \o <<32, 97, 98, 97, 110, 100, 111, 110, 115, 32, 116, 104, 101, 32, 103, 97, 109, 101>>
+    [] r = "unknown" -> LongColor(c) \o <<32, 119, 105, 110, 115, 32, 98, 121, 32, 117, 110, 107, 110, 111, 119, 110, 32, 114, 101, 97, 115, 111, 110>>
+OutcomeText(o) == IF o[1] = "draw" THEN DrawText(o[2]) ELSE WinText(o[2], o[3])
+GameStatusText(o) == IF o = <<"none">> THEN <<42>> ELSE IF o[1] = "draw" THEN <<49, 47, 50, 45, 49, 47, 50>> ELSE IF o[2] = White THEN <<49, 45, 48>> ELSE <<48, 45, 49>>
+AllOutcomes == {<<"draw", r>> : r \in {"stalemate", "insufficient", "moves75", "repeat5", "moves50", "repeat3", "agreement", "unknown"}} \cup {<<"win", c, r>> : c \in {0, 1}, r \in {"checkmate", "timeforfeit", "invalidmove", "engineerror", "resign", "abandon", "unknown"}}
+
 \* winner-swapped outcome (colour mirror)
 SwapOutcome(o) == IF o[1] = "win" THEN <<"win", Other(o[2]), o[3]>> ELSE o
 =============================================================================
